@@ -256,6 +256,17 @@ struct OlcEngine final : Engine {
               }
         c.set_knob("varbound", 1);
       }
+      // point lookups (get, remove) with a proper prefix or an extension of a key of the program: never stored, never changes
+      // the key set; must miss / fail and, above all, return
+      if (vr.chance(0.35) && !novar) {
+        for (auto& ops : c.threads)
+          for (auto& o : ops)
+            if ((o.kind == O_GET || o.kind == O_REMOVE) && vr.chance(0.15)) {
+              if (o.key.size() > 1 && vr.chance(0.6)) o.key.resize(1 + vr.below(o.key.size() - 1));
+              else { const size_t extra = 1 + vr.below(3); for (size_t i = 0; i < extra; i++) o.key.push_back(static_cast<char>(vr.chance(0.4) ? 0x00 : static_cast<int>(vr.below(256)))); }
+            }
+        c.set_knob("varprobe", 1);
+      }
     }
     const auto qx = r.below(100);
     c.set_knob("qplace", qx < 45 ? 0 : (qx < 80 ? 1 : 2));
